@@ -726,6 +726,17 @@ func (v *fnVC) loadAt(addr T, t types.Type, snap map[string]T) T {
 		_, mt = v.mem(s)
 	}
 	res := sel(mt, addr)
+	if v.e.constGlobals[addr] && mt != v.mem0(m) {
+		// a package-level variable that only package initialisation writes: every state holds its entry value
+		if gk := fmt.Sprint(v.blk.Index, "cg", mt, addr); !v.grounded[gk] {
+			v.grounded[gk] = true
+			v.assume(eq(res, sel(v.mem0(m), addr)))
+			if nk := "cgnote" + addr; !v.grounded[nk] {
+				v.grounded[nk] = true
+				v.notes = append(v.notes, "scanned: package variable "+strings.TrimPrefix(addr, "g_")+" is written only by package initialisation, so every state holds its entry value")
+			}
+		}
+	}
 	// heap well-formedness, instantiated on demand: a reference read from memory state S is
 	// nil or allocated in the allocation state belonging to S
 	if !strings.Contains(res, "q_") {
